@@ -15,6 +15,7 @@
 //!   wrongfmt <i> <cls> <code> <fmt> <n> <payload>            valid body under another body format
 //!   stream|cstream <i> <cls> <code> <id> <notify> <ec> <qfmt> <query> <n> <payload>   streaming writers
 //!   net <i> <server> <client> <kind> <route> <cls> <code> <plen> <n> <payload>        real servers and clients
+//!   seq <i> <cls> <code> <s1> <s2> <qafter> <qlen> <cap> <p1> <p2>   two body setters in a row on one builder
 //!   cap <i> <client> <kind> <cls> <code> <plen> <n> <payload>    the raw request frame a client helper puts on the
 //!                                                                wire (capture peer), then served by the borrowing route
 use half::{bf16, f16};
@@ -1106,6 +1107,61 @@ fn op_net<T: Elem>(c: &mut Ctx, server: usize, client: &str, kind: &str, route: 
     (format!("{} {}", c.idx, s), r.is_ok())
 }
 
+/// Apply one body setter (`bytes` with a buffer of at least `cap` bytes capacity, `utf8`, `json`,
+/// `beve`, `typed`, `complex`, `aligned`) to a builder.
+fn apply_setter<T: Elem>(b: repe::message::MessageBuilder, name: &str, p: &[u8], cap: usize) -> repe::message::MessageBuilder {
+    match name {
+        "bytes" => {
+            let mut v = Vec::with_capacity(cap.max(p.len()));
+            v.extend_from_slice(p);
+            b.body_bytes(v)
+        }
+        "utf8" => b.body_utf8(&hex(p)),
+        "json" => b.body_json(&serde_json::Value::String(hex(p))).expect("json encode"),
+        "beve" => b.body_beve(&vec_of::<T>(p)).expect("serde encode"),
+        "typed" => b.body_typed_slice(&vec_of::<T>(p)),
+        "complex" => b.body_complex_slice(&cvec_of::<T>(p)),
+        "aligned" => b.body_aligned_typed_slice(&vec_of::<T>(p)),
+        other => panic!("unknown setter {}", other),
+    }
+}
+
+/// Two body setters in a row on one builder (query set before or after them): the last setter wins —
+/// the message is the one a fresh builder makes with the last setter alone (`body_bytes` keeps the
+/// format the earlier setter left), through `to_vec`, `write_message` and `into_wire_bytes`.
+#[allow(clippy::too_many_arguments)]
+fn op_seq<T: Elem>(c: &mut Ctx, s1: &str, s2: &str, qafter: bool, qlen: usize, cap: usize, p1: &[u8], p2: &[u8]) -> (String, bool) {
+    let q = path_of(qlen).into_bytes();
+    let start = || {
+        let b = Message::builder().id(7);
+        if qafter { b } else { b.query_bytes(q.clone()) }
+    };
+    let finish = |b: repe::message::MessageBuilder| if qafter { b.query_bytes(q.clone()).build() } else { b.build() };
+    let both = finish(apply_setter::<T>(apply_setter::<T>(start(), s1, p1, cap), s2, p2, cap));
+    // the reference: the last setter alone (after a format-only stand-in for the first when the last is body_bytes)
+    let fresh = if s2 == "bytes" {
+        let fmt_of_first = finish(apply_setter::<T>(start(), s1, p1, cap)).header.body_format;
+        finish(apply_setter::<T>(start().body_format_code(fmt_of_first), s2, p2, 0))
+    } else {
+        finish(apply_setter::<T>(start(), s2, p2, 0))
+    };
+    let frame = both.to_vec();
+    let mut written = Vec::new();
+    repe::write_message(&mut written, &both).unwrap();
+    let wire = both.clone().into_wire_bytes();
+    if both.body != fresh.body || both.header.body_length != fresh.body.len() as u64 {
+        let at = both.body.iter().zip(fresh.body.iter()).position(|(a, b)| a != b).unwrap_or(both.body.len().min(fresh.body.len()));
+        c.fail(&format!("numeric.seq.{}_then_{}.stale_body", s1, s2), format!("after {} then {} the body has {} bytes (declared {}), a fresh builder with {} alone gives {} bytes; first difference at byte {}", s1, s2, both.body.len(), both.header.body_length, s2, fresh.body.len(), at));
+    }
+    if frame != fresh.to_vec() {
+        c.fail(&format!("numeric.seq.{}_then_{}.frame_ne_fresh", s1, s2), format!("the frame ({} bytes) differs from the fresh builder's ({} bytes)", frame.len(), fresh.to_vec().len()));
+    }
+    if written != frame || wire != frame {
+        c.fail(&format!("numeric.seq.{}_then_{}.routes_differ", s1, s2), format!("write_message equal: {}, into_wire_bytes equal: {}", written == frame, wire == frame));
+    }
+    (format!("{} {}", c.idx, hex(&frame)), true)
+}
+
 fn cap_path(plen: usize) -> String {
     if plen == 0 { String::new() } else { format!("/{}", "c".repeat(plen - 1)) }
 }
@@ -1311,6 +1367,12 @@ fn exec(out: &mut Out, line: &str, net: Option<&Net>) {
             let p = unhex(w[10]).unwrap();
             let cx = w[0] == "cstream";
             dispatch!(cls, code, op_stream(&mut c, cx, w[4].parse().unwrap(), w[5] == "1", w[6].parse().unwrap(), w[7].parse().unwrap(), &q, u(w[9]), &p))
+        }
+        "seq" => {
+            let (cls, code) = ty(w[2], w[3]);
+            let p1 = unhex(w[9]).unwrap();
+            let p2 = unhex(w[10]).unwrap();
+            dispatch!(cls, code, op_seq(&mut c, w[4], w[5], w[6] == "1", u(w[7]), u(w[8]), &p1, &p2))
         }
         "cap" => {
             let (cls, code) = ty(w[4], w[5]);
@@ -1839,6 +1901,26 @@ fn generate(seed: u64, thorough: bool) -> Vec<String> {
         push!(g, "net", "{} sync aligned ref 0 3 1 3 {}", server, hex(&p[..24]));
     }
 
+    // ---- 6b. builder sequences: every ordered pair of body setters, query before / after ----------------
+    const SETTERS: [&str; 7] = ["bytes", "utf8", "json", "beve", "typed", "complex", "aligned"];
+    for round in 0..(if thorough { 12 } else { 2 }) {
+        let (cls, code, w) = if round == 0 { (0u8, 3u8, 8usize) } else { *g.r.pick(&TYPES) };
+        for s1 in SETTERS {
+            for s2 in SETTERS {
+                for qafter in [0, 1] {
+                    // a long earlier body (capacity to spare) then a short one, and the reverse
+                    let long_first = (round + qafter) % 2 == 0 || s1 == "bytes";
+                    let (k1, k2) = if long_first { (g.r.range(20, 60), g.r.range(0, 3)) } else { (g.r.range(0, 3), g.r.range(4, 30)) };
+                    let p1 = gen_payload(&mut g.r, cls, code, w, k1 as usize, 2);
+                    let p2 = gen_payload(&mut g.r, cls, code, w, k2 as usize, 2);
+                    let qlen = g.r.below(20);
+                    let cap = if g.r.chance(1, 2) { 4096 } else { p1.len() + 48 + qlen as usize + g.r.below(64) as usize };
+                    push!(g, "seq", "{} {} {} {} {} {} {} {} {}", cls, code, s1, s2, qafter, qlen, cap, hex(&p1), hex(&p2));
+                }
+            }
+        }
+    }
+
     // ---- 7. the frames the client helpers really write (capture peer) ------------------------------------
     // aligned calls: every element type x every path length 0..16 (all residues mod 8 and 16) x both
     // clients; longer paths and the bulk / serde helpers sampled
@@ -1874,7 +1956,7 @@ fn main() {
     let args = Args::parse();
     quiet_panics();
     let mut out = Out::new(&args.out);
-    out.rule = "element types bf16,f16,f32,f64,i8..i64,u8..u64 as raw little-endian blocks (NaN payloads quiet/signalling, ±inf, ±0, subnormals, min/max, random bits); vectors of every length 0..70 (thorough: 0..4096) plus 127..4096 boundaries, 2^14±1 and (thorough) one 2^20; complex pairs; three-way comparison bulk body / serde body / model, both decoders on both bodies incl. the empty vector; aligned form behind every query length 0..64 for every type and SIZE width, the frame copied to every base misalignment 0..7 of a Vec<u64> and served by the with_typed_slice_ref handler (pointer-range test: borrowed iff payload address aligned); regular / generic / aligned-for-another-offset / corrupted bodies and every first byte through both bulk routes (view and owned); every ordered pair of distinct element types in regular, aligned and complex form; wrong body formats; streaming writers (typed, complex and write_message_streaming itself; Vec sink and write-only / gathering sinks taking 1..1000 bytes per call, limits around the header end and the query end, every query length 0..64) vs buffered builders; real Server and AsyncServer with bulk, aligned and serde clients (blocking and async); the raw request frame every client helper writes, captured by a stand-in peer for every element type and path length 0..16 (+ longer), compared with the MessageBuilder frame and served by the borrowing route at base misalignments 0..7. Distinct by op line; non-trivial = the decoder / route / call accepted and returned elements (encoders: non-empty vector)".into();
+    out.rule = "element types bf16,f16,f32,f64,i8..i64,u8..u64 as raw little-endian blocks (NaN payloads quiet/signalling, ±inf, ±0, subnormals, min/max, random bits); vectors of every length 0..70 (thorough: 0..4096) plus 127..4096 boundaries, 2^14±1 and (thorough) one 2^20; complex pairs; three-way comparison bulk body / serde body / model, both decoders on both bodies incl. the empty vector; aligned form behind every query length 0..64 for every type and SIZE width, the frame copied to every base misalignment 0..7 of a Vec<u64> and served by the with_typed_slice_ref handler (pointer-range test: borrowed iff payload address aligned); regular / generic / aligned-for-another-offset / corrupted bodies and every first byte through both bulk routes (view and owned); every ordered pair of distinct element types in regular, aligned and complex form; wrong body formats; streaming writers (typed, complex and write_message_streaming itself; Vec sink and write-only / gathering sinks taking 1..1000 bytes per call, limits around the header end and the query end, every query length 0..64) vs buffered builders; real Server and AsyncServer with bulk, aligned and serde clients (blocking and async); two body setters in a row on one builder for every ordered pair of setters (bytes with spare capacity, utf8, json, beve, typed, complex, aligned; query before / after): the last setter wins; the raw request frame every client helper writes, captured by a stand-in peer for every element type and path length 0..16 (+ longer), compared with the MessageBuilder frame and served by the borrowing route at base misalignments 0..7. Distinct by op line; non-trivial = the decoder / route / call accepted and returned elements (encoders: non-empty vector)".into();
     let ops = match args.replay_ops() {
         Some(o) => o,
         // `--release-shape` (the optimised-build run of the thorough tier): the quick-sized mix, other seed
